@@ -9,6 +9,8 @@ import (
 	"path/filepath"
 	"sort"
 	"strings"
+
+	"golang.org/x/tools/go/ssa"
 )
 
 const (
@@ -39,6 +41,9 @@ type RuleResult struct {
 	Analysed    int          `json:"functions_analysed"`
 	Obligations []Obligation `json:"obligations"`
 	Notes       []string     `json:"notes,omitempty"`
+	// Shared: instances that are covered by an obligation inside a helper with several
+	// call sites (one obligation, k calling contexts: k-1 is added here)
+	Shared int `json:"instances_through_shared_helpers,omitempty"`
 }
 
 func (r *RuleResult) add(o Obligation) {
@@ -88,7 +93,7 @@ func runRule(p *Program, rule *Rule) (res *RuleResult) {
 			panic(fmt.Sprintf("rule %s failed: %v", rule.ID, err))
 		}
 	}
-	n := 0
+	n := res.Shared
 	for _, o := range res.Obligations {
 		if o.Status != Missing {
 			n++
@@ -229,4 +234,17 @@ func joinNonEmpty(sep string, parts ...string) string {
 		}
 	}
 	return strings.Join(o, sep)
+}
+
+// staticCallSites: number of static call sites of fn inside its own package.
+func staticCallSites(p *Program, fn *ssa.Function) int {
+	n := 0
+	for _, g := range p.FuncsInPkg(strings.TrimPrefix(fnPkgPath(fn), modPath+"/")) {
+		eachCall(g, func(c ssa.CallInstruction) {
+			if c.Common().StaticCallee() == fn {
+				n++
+			}
+		})
+	}
+	return n
 }
